@@ -60,6 +60,25 @@ func c17Pred(kind string, k int) func([]byte) (bool, error) {
 			}
 			return false, nil
 		}
+	case "done-first-byte", "err-first-byte", "done-last-byte":
+		// predicates that look at the content, not at the length (as the section predicates of the psi package do): two
+		// units of the same length get different answers
+		th := byte(k)
+		return func(b []byte) (bool, error) {
+			if len(b) == 0 {
+				return false, nil
+			}
+			switch kind {
+			case "done-first-byte":
+				return b[0] >= th, nil
+			case "done-last-byte":
+				return b[len(b)-1] >= th, nil
+			}
+			if b[0] >= th {
+				return false, errC17Pred
+			}
+			return false, nil
+		}
 	case "done-and-err-at":
 		// complete and failing at once: the error must not be lost
 		return func(b []byte) (bool, error) {
@@ -107,7 +126,8 @@ func genC17Packet(t *rapid.T) []byte {
 
 func genC17(t *rapid.T) CaseC17 {
 	c := CaseC17{}
-	c.Pred = rapid.SampledFrom([]string{"done-at", "done-at", "err-at", "never", "always", "done-and-err-at", "err-once-at", "err-sentinel-once-at", "err-wrapped-sentinel-once-at"}).Draw(t, "pred")
+	c.Pred = rapid.SampledFrom([]string{"done-at", "done-at", "err-at", "never", "always", "done-and-err-at", "err-once-at", "err-sentinel-once-at", "err-wrapped-sentinel-once-at",
+		"done-first-byte", "err-first-byte", "done-last-byte", "done-first-byte"}).Draw(t, "pred")
 	c.K = rapid.SampledFrom([]int{0, 1, 10, 184, 185, 300, 368, 500, 1000}).Draw(t, "k")
 	n := rapid.IntRange(1, 30).Draw(t, "steps")
 	for i := 0; i < n; i++ {
@@ -132,6 +152,7 @@ type c17Model struct {
 	buf   []byte
 	must  [][]byte // packets that contributed (must appear, in order)
 	may   [][]byte // all packets submitted since the last unit start that passed the gate (super-sequence bound)
+	opt   int      // packets of may that may or may not be listed (empty payload, predicate failed: a rollback is invisible)
 }
 
 func checkC17(c CaseC17, x *hx.Ctx) *hx.Failure {
@@ -257,7 +278,9 @@ func checkC17(c CaseC17, x *hx.Ctx) *hx.Failure {
 			if shadow != nil {
 				sp := packet.Packet(b)
 				sn, serr = shadow.WritePacket(&sp)
-				if sn != n || (serr == nil) != (err == nil) || (err != nil && serr.Error() != err.Error()) {
+				// the message text may carry per-object detail (a lifetime counter, an address): only the outcome and the
+				// library's sentinels are compared
+				if sn != n || (serr == nil) != (err == nil) || !c17SameSentinels(err, serr) {
 					return hx.Failf("reset-differs-from-fresh", "%s: after Reset WritePacket returned (%d,%v), a fresh accumulator returned (%d,%v)", where, n, err, sn, serr)
 				}
 			}
@@ -285,6 +308,7 @@ func checkC17(c CaseC17, x *hx.Ctx) *hx.Failure {
 					m.buf = nil
 					m.must = nil
 					m.may = nil
+					m.opt = 0
 				}
 				m.may = append(m.may, clone(b[:]))
 				if rp.AFC&1 == 0 {
@@ -309,6 +333,10 @@ func checkC17(c CaseC17, x *hx.Ctx) *hx.Failure {
 							m.buf = m.buf[:len(got)]
 							m.must = m.must[:len(m.must)-1]
 							x.Label("predicate-error-rolled-back")
+						} else if len(rp.Payload) == 0 {
+							// a rollback of a packet with an empty payload cannot be seen in the bytes: the packet may or may not be listed
+							m.must = m.must[:len(m.must)-1]
+							m.opt++
 						}
 					}
 					if done {
@@ -381,7 +409,7 @@ func c17Seq(got []*packet.Packet, m *c17Model, where string) *hx.Failure {
 		return hx.Failf("packets-extra", "%s: Packets() (%d entries) contains something other than the packets submitted since the last unit start (%d), in order", where, len(gb), len(m.may))
 	}
 	// "exactly those packets": a packet that was refused with an error (no payload) was not accepted and is not listed
-	if len(gb) != len(m.must) {
+	if len(gb) < len(m.must) || len(gb) > len(m.must)+m.opt {
 		return hx.Failf("packets-refused-listed", "%s: Packets() has %d entries, %d packets were accepted since the last unit start (a packet refused with an error is listed)", where, len(gb), len(m.must))
 	}
 	return nil
@@ -404,7 +432,7 @@ func isSubseq(small, big [][]byte) bool {
 var propC17 = hx.Register(hx.Prop[CaseC17]{ID: "C17", Gen: genC17, Check: checkC17})
 
 func c17Rule() {
-	hx.Rec("C17").SetRule("cases: histories of 1..30 calls (WritePacket with a generated well-formed packet: PUSI on/off, payload-less, af_len 0, short payload behind stuffing, full payload, or the previous packet again byte for byte; Bytes; Packets; Reset) on one accumulator with a drawn predicate (done when >= k bytes, error when >= k bytes, done and error at once when >= k bytes, error exactly once (own error, the library's completion sentinel, or a wrapper of it) and not done afterwards, never, always; k from {0,1,10,184,185,300,368,500,1000}). Oracle: a three-state reference model (starting/accumulating/done, byte buffer, packet list); after EVERY call Bytes() and Packets() are compared with the model, returned slices and the packets they point to are scribbled on and the caller's packet is modified to detect aliasing, and after a Reset a fresh accumulator is driven in lockstep (differential); a second accumulator is fed other packets between the steps, Reset at the same moments, and checked as well. Non-trivial: the history contains a second unit start, a write after completion, a predicate error, or a Reset.",
+	hx.Rec("C17").SetRule("cases: histories of 1..30 calls (WritePacket with a generated well-formed packet: PUSI on/off, payload-less, af_len 0, short payload behind stuffing, full payload, or the previous packet again byte for byte; Bytes; Packets; Reset) on one accumulator with a drawn predicate (done when >= k bytes, error when >= k bytes, done and error at once when >= k bytes, error exactly once (own error, the library's completion sentinel, or a wrapper of it) and not done afterwards, never, always, and predicates that look at the content: done / error when the first byte, done when the last byte is >= byte(k); k from {0,1,10,184,185,300,368,500,1000}). Oracle: a three-state reference model (starting/accumulating/done, byte buffer, packet list); after EVERY call Bytes() and Packets() are compared with the model, returned slices and the packets they point to are scribbled on and the caller's packet is modified to detect aliasing, and after a Reset a fresh accumulator is driven in lockstep (differential); a second accumulator is fed other packets between the steps, Reset at the same moments, and checked as well. Non-trivial: the history contains a second unit start, a write after completion, a predicate error, or a Reset.",
 		"Packets() is compared by content with the packets accepted since the last unit start (a packet refused with an error is not one of them)",
 		"only well-formed packets are written (malformed ones are C05's business)")
 }
@@ -469,4 +497,14 @@ func TestC17LongUnit(t *testing.T) {
 		}
 	}
 	hx.Rec("C17").Subspace("single units of 400 and 23000 (thorough: 48000) full-payload packets, i.e. more than 4 MiB accumulated after one unit start")
+}
+
+// c17SameSentinels: two accumulators fed the same packets fail with the same library sentinels.
+func c17SameSentinels(a, b error) bool {
+	for _, s := range []error{gots.ErrAccumulatorDone, gots.ErrNoPayload, gots.ErrNoPayloadUnitStartIndicator} {
+		if errors.Is(a, s) != errors.Is(b, s) {
+			return false
+		}
+	}
+	return true
 }
